@@ -764,6 +764,12 @@ protected:
       std::string headerSection = dataStr.substr(0, headerEnd);
       std::size_t contentLength = 0;
       bool isChunked = false;
+      bool haveContentLength = false;
+      bool haveTransferEncoding = false;
+      // Invalid or conflicting length information (RFC 9112 §6.3): the message
+      // cannot be framed reliably, so it is rejected (400/501 + close) instead
+      // of being framed by guesswork.
+      int framingErrorStatus = 0;
 
       // Parse headers
       std::istringstream headerStream(headerSection);
@@ -792,33 +798,49 @@ protected:
 
           if (key == "content-length")
           {
-            try
+            // RFC 9110 §8.6: Content-Length = 1*DIGIT (a comma-separated list is
+            // acceptable only if every member is the same valid number). No
+            // sign, no whitespace, no trailing junk ("3abc", "1e3", "+5",
+            // "5, 6"), no overflow. std::stoull accepted all of these prefixes.
+            std::uint64_t parsedLength = 0;
+            bool overLimit = false;
+            if (!parseContentLengthValue(value, parsedLength, overLimit) ||
+                (haveContentLength && parsedLength != contentLength))
             {
-              contentLength = std::stoull(value);
-              if (contentLength > SessionInfo::MAX_BODY_SIZE)
-              {
-                iora::core::Logger::error("HttpServer: Body size limit exceeded for session " +
-                                          std::to_string(sid) + " - closing connection");
-                // No lock held; guarded close (was unguarded raw _transport->close).
-                closeSession(sid);
-                return;
-              }
+              // non-numeric, signed, overflowing, or conflicting duplicate
+              framingErrorStatus = 400;
             }
-            catch (...)
+            else if (overLimit || parsedLength > SessionInfo::MAX_BODY_SIZE)
             {
-              iora::core::Logger::error("HttpServer: Invalid "
-                                        "content-length header for session " +
+              iora::core::Logger::error("HttpServer: Body size limit exceeded for session " +
                                         std::to_string(sid) + " - closing connection");
               // No lock held; guarded close (was unguarded raw _transport->close).
               closeSession(sid);
               return;
             }
+            else
+            {
+              contentLength = static_cast<std::size_t>(parsedLength);
+              haveContentLength = true;
+            }
           }
           else if (key == "transfer-encoding")
           {
-            // Convert value to lowercase for comparison
+            // RFC 9112 §6.1 / §6.3 rule 4: the body length of a request is only
+            // determinable when "chunked" is the final transfer coding. This
+            // server implements no other coding, so the only framable value is
+            // exactly "chunked" (tokenized, case-insensitive); a substring
+            // match would treat "xchunkedx" or "chunked, gzip" as chunked.
+            haveTransferEncoding = true;
             std::transform(value.begin(), value.end(), value.begin(), ::tolower);
-            if (value.find("chunked") != std::string::npos)
+            if (isChunked || !transferEncodingIsChunkedOnly(value))
+            {
+              if (framingErrorStatus == 0)
+              {
+                framingErrorStatus = 501; // transfer coding not implemented
+              }
+            }
+            else
             {
               isChunked = true;
             }
@@ -826,16 +848,46 @@ protected:
         }
       }
 
+      // RFC 9112 §6.3 rule 3: a request carrying both Transfer-Encoding and
+      // Content-Length is a smuggling vector; a server MAY reject it.
+      if (framingErrorStatus == 0 && haveTransferEncoding && haveContentLength)
+      {
+        framingErrorStatus = 400;
+      }
+      if (framingErrorStatus != 0)
+      {
+        iora::core::Logger::error("HttpServer: Invalid message framing (Content-Length / "
+                                  "Transfer-Encoding) for session " +
+                                  std::to_string(sid) + " - rejecting and closing connection");
+        // No lock held here; sendErrorResponse sends the status and closes.
+        sendErrorResponse(sid, framingErrorStatus, getStatusText(framingErrorStatus),
+                          "Invalid message framing");
+        return;
+      }
+
       std::size_t requestEndPos;
+      std::string requestData;
 
       if (isChunked)
       {
-        // Handle chunked encoding
-        requestEndPos = findChunkedRequestEnd(dataStr, headerEnd + 4);
-        if (requestEndPos == std::string::npos)
+        // Handle chunked encoding: validate the chunk framing and hand the
+        // DECODED body to the request parser (RFC 9112 §7.1.3).
+        std::string decodedBody;
+        const ChunkScan scan =
+          decodeChunkedRequest(dataStr, headerEnd + 4, decodedBody, requestEndPos);
+        if (scan == ChunkScan::NeedMore)
         {
           break; // Need more data for chunked body
         }
+        if (scan == ChunkScan::Malformed)
+        {
+          iora::core::Logger::error("HttpServer: Malformed chunked request body for session " +
+                                    std::to_string(sid) + " - rejecting and closing connection");
+          sendErrorResponse(sid, 400, "Bad Request", "Malformed chunked request body");
+          return;
+        }
+        requestData = dataStr.substr(0, headerEnd + 4);
+        requestData += decodedBody;
       }
       else
       {
@@ -846,10 +898,10 @@ protected:
           break; // Need more data for body
         }
         requestEndPos = totalExpectedLength;
-      }
 
-      // Extract complete request
-      std::string requestData = dataStr.substr(0, requestEndPos);
+        // Extract complete request
+        requestData = dataStr.substr(0, requestEndPos);
+      }
 
       // Remove processed data from buffer
       dataStr = dataStr.substr(requestEndPos);
@@ -1372,55 +1424,237 @@ protected:
                               std::to_string(sid));
   }
 
-  /// \brief Find the end of a chunked request body
-  std::size_t findChunkedRequestEnd(const std::string &data, std::size_t bodyStart) const
+  /// \brief Parse a Content-Length field value (RFC 9110 §8.6): 1*DIGIT, or a
+  /// comma-separated list whose members are all the same valid number. Returns
+  /// false for anything else (sign, whitespace inside, trailing junk, empty,
+  /// differing members). A syntactically valid number that does not fit 64 bits
+  /// sets \p overLimit (it is necessarily beyond MAX_BODY_SIZE).
+  static bool parseContentLengthValue(const std::string &value, std::uint64_t &out, bool &overLimit)
+  {
+    overLimit = false;
+    bool have = false;
+    std::size_t pos = 0;
+    while (true)
+    {
+      std::size_t comma = value.find(',', pos);
+      std::size_t end = (comma == std::string::npos) ? value.size() : comma;
+      std::size_t a = pos;
+      while (a < end && (value[a] == ' ' || value[a] == '\t'))
+      {
+        ++a;
+      }
+      std::size_t b = end;
+      while (b > a && (value[b - 1] == ' ' || value[b - 1] == '\t'))
+      {
+        --b;
+      }
+      if (a == b)
+      {
+        return false; // empty value / empty list member
+      }
+      std::uint64_t v = 0;
+      bool over = false;
+      for (std::size_t i = a; i < b; ++i)
+      {
+        const char c = value[i];
+        if (c < '0' || c > '9')
+        {
+          return false;
+        }
+        const std::uint64_t d = static_cast<std::uint64_t>(c - '0');
+        if (v > (UINT64_MAX - d) / 10)
+        {
+          over = true; // keep validating the syntax
+        }
+        else
+        {
+          v = v * 10 + d;
+        }
+      }
+      if (over)
+      {
+        overLimit = true;
+        v = UINT64_MAX;
+      }
+      if (have && v != out)
+      {
+        return false; // conflicting list members
+      }
+      out = v;
+      have = true;
+      if (comma == std::string::npos)
+      {
+        break;
+      }
+      pos = comma + 1;
+    }
+    return have;
+  }
+
+  /// \brief True iff the (already lower-cased) Transfer-Encoding value consists
+  /// of exactly one coding, "chunked" (empty list members are ignored per
+  /// RFC 9110 §5.6.1).
+  static bool transferEncodingIsChunkedOnly(const std::string &value)
+  {
+    std::size_t pos = 0;
+    std::size_t codings = 0;
+    while (true)
+    {
+      std::size_t comma = value.find(',', pos);
+      std::size_t end = (comma == std::string::npos) ? value.size() : comma;
+      std::size_t a = pos;
+      while (a < end && (value[a] == ' ' || value[a] == '\t'))
+      {
+        ++a;
+      }
+      std::size_t b = end;
+      while (b > a && (value[b - 1] == ' ' || value[b - 1] == '\t'))
+      {
+        --b;
+      }
+      if (a != b)
+      {
+        if (value.compare(a, b - a, "chunked") != 0)
+        {
+          return false;
+        }
+        ++codings;
+      }
+      if (comma == std::string::npos)
+      {
+        break;
+      }
+      pos = comma + 1;
+    }
+    return codings == 1;
+  }
+
+  enum class ChunkScan
+  {
+    NeedMore, ///< not an error - keep buffering
+    Complete, ///< whole chunked body (incl. trailer section) present
+    Malformed ///< invalid chunk framing - reject
+  };
+
+  /// \brief Validate and decode a chunked request body (RFC 9112 §7.1) that
+  /// starts at \p bodyStart. chunk-size is 1*HEXDIG (no sign, no "0x", no
+  /// leading whitespace) and is bounded by MAX_BODY_SIZE while it is being
+  /// accumulated, so it can never overflow the position arithmetic; chunk
+  /// extensions are skipped (BWS before ';' tolerated); every chunk must be
+  /// followed by CRLF; the trailer section is consumed through its terminating
+  /// empty line (trailer fields are discarded). On Complete, \p decoded holds
+  /// the body and \p endPos the offset just past the message.
+  ChunkScan decodeChunkedRequest(const std::string &data, std::size_t bodyStart,
+                                 std::string &decoded, std::size_t &endPos) const
   {
     std::size_t pos = bodyStart;
+    decoded.clear();
+    endPos = std::string::npos;
 
-    while (pos < data.length())
+    while (true)
     {
       // Find chunk size line
-      auto chunkSizeLine = data.find("\r\n", pos);
-      if (chunkSizeLine == std::string::npos)
+      auto lineEnd = data.find("\r\n", pos);
+      // Validate what is already there, so that garbage is rejected at once
+      // instead of being buffered up to MAX_BUFFER_SIZE.
+      std::size_t scanEnd = lineEnd;
+      if (lineEnd == std::string::npos)
       {
-        return std::string::npos; // Need more data
+        scanEnd = data.size();
+        if (scanEnd > pos && data[scanEnd - 1] == '\r')
+        {
+          --scanEnd; // first half of a CRLF whose LF has not arrived yet
+        }
       }
-
-      // Parse chunk size (hex)
-      std::string chunkSizeStr = data.substr(pos, chunkSizeLine - pos);
-      std::size_t chunkSize;
-      try
+      std::size_t p = pos;
+      std::uint64_t chunkSize = 0;
+      while (p < scanEnd && std::isxdigit(static_cast<unsigned char>(data[p])))
       {
-        chunkSize = std::stoul(chunkSizeStr, nullptr, 16);
+        const char c = data[p];
+        const std::uint64_t d = (c <= '9')   ? static_cast<std::uint64_t>(c - '0')
+                                : (c <= 'F') ? static_cast<std::uint64_t>(c - 'A' + 10)
+                                             : static_cast<std::uint64_t>(c - 'a' + 10);
+        chunkSize = chunkSize * 16 + d; // <= MAX_BODY_SIZE * 16 + 15: cannot overflow
+        if (chunkSize > SessionInfo::MAX_BODY_SIZE)
+        {
+          iora::core::Logger::error("HttpServer: Chunk size exceeds body size limit");
+          return ChunkScan::Malformed;
+        }
+        ++p;
       }
-      catch (...)
+      if (p == pos && p < scanEnd)
       {
         iora::core::Logger::error("HttpServer: Invalid chunk size in chunked encoding");
-        return std::string::npos;
+        return ChunkScan::Malformed; // no chunk-size digits
+      }
+      if (p < scanEnd)
+      {
+        // After the digits only BWS + ";" chunk-ext may follow.
+        std::size_t q = p;
+        while (q < scanEnd && (data[q] == ' ' || data[q] == '\t'))
+        {
+          ++q;
+        }
+        if (q < scanEnd ? data[q] != ';' : lineEnd != std::string::npos)
+        {
+          iora::core::Logger::error("HttpServer: Invalid chunk size in chunked encoding");
+          return ChunkScan::Malformed; // junk (or bare whitespace) after chunk-size
+        }
+      }
+      if (lineEnd == std::string::npos)
+      {
+        return ChunkScan::NeedMore; // Need more data
+      }
+      if (p == pos)
+      {
+        iora::core::Logger::error("HttpServer: Invalid chunk size in chunked encoding");
+        return ChunkScan::Malformed; // empty chunk-size line
       }
 
-      pos = chunkSizeLine + 2; // Skip \r\n
+      pos = lineEnd + 2; // Skip \r\n
 
       if (chunkSize == 0)
       {
-        // Final chunk, look for final \r\n
-        auto finalCRLF = data.find("\r\n", pos);
-        if (finalCRLF == std::string::npos)
+        // Last chunk: consume the trailer section through the empty line.
+        while (true)
         {
-          return std::string::npos; // Need more data
+          auto trailerEnd = data.find("\r\n", pos);
+          if (trailerEnd == std::string::npos)
+          {
+            return ChunkScan::NeedMore; // Need more data
+          }
+          if (trailerEnd == pos)
+          {
+            endPos = pos + 2;
+            return ChunkScan::Complete;
+          }
+          pos = trailerEnd + 2;
         }
-        return finalCRLF + 2;
       }
 
-      // Skip chunk data + trailing \r\n
-      pos += chunkSize + 2;
-      if (pos > data.length())
+      if (decoded.size() + chunkSize > SessionInfo::MAX_BODY_SIZE)
       {
-        return std::string::npos; // Need more data
+        iora::core::Logger::error("HttpServer: Chunked body exceeds body size limit");
+        return ChunkScan::Malformed;
       }
+      // Need chunk data + trailing \r\n (subtraction-based bound: pos <= size).
+      const std::size_t available = data.size() - pos;
+      if (available < chunkSize + 2)
+      {
+        if (available > chunkSize && data[pos + chunkSize] != '\r')
+        {
+          return ChunkScan::Malformed;
+        }
+        return ChunkScan::NeedMore; // Need more data
+      }
+      if (data[pos + chunkSize] != '\r' || data[pos + chunkSize + 1] != '\n')
+      {
+        iora::core::Logger::error("HttpServer: Chunk data not terminated by CRLF");
+        return ChunkScan::Malformed;
+      }
+      decoded.append(data, pos, static_cast<std::size_t>(chunkSize));
+      pos += static_cast<std::size_t>(chunkSize) + 2;
     }
-
-    return std::string::npos;
   }
 
   /// \brief Compute the Allow header value for a request path by evaluating the
